@@ -311,3 +311,23 @@ def int_bitop(eng, st, site, func, target, args, dty):
         return None
     op = _BITOPS[target["name"].rsplit("::", 1)[1]]
     return [(st, eng.binop(st, frame, bb, op, a, b, a.ty, t.get("ln"), a.ty))]
+
+
+@stub(r"^std::string::String::truncate$")
+def string_truncate(eng, st, site, func, target, args, dty):
+    """String::truncate(n): no-op when n >= len, panics when n is not on a char boundary"""
+    frame, bb, t = site
+    cell, v = get_vec(eng, st, args[0])
+    n = args[1]
+    if v is None or not isinstance(n, VInt):
+        return None
+    if eng.ent(st, c_le(v.len, n.lin)):
+        return [(st, UNIT)]
+    zero = eng.ent(st, c_eq(n.lin, Lin.const(0)))
+    eng.oblig("bounds", frame, bb, eng.callee_label(func) + " (char boundary)", zero, st,
+              None if zero else "String::truncate(%r) on a string of %r octets: the cut is not known to be a char boundary" % (n.lin, v.len), t.get("ln"))
+    nl = eng.new_int(eng.usize_ty(), "trunc", 0)
+    st.cons.append(c_le(nl.lin, v.len))
+    st.cons.append(c_le(nl.lin, n.lin))
+    st.cells[cell] = VVec(nl.lin, None, None, v.name, v.elem_ty)
+    return [(st, UNIT)]
